@@ -78,6 +78,20 @@ def programs(tier):
                 new(f"Objective{direction}imizeIndicator", "o1", target=R("i1"), weight=w1),
                 new(f"Objective{direction}imizeIndicator", "o2", target=R("i2"), weight=w2)])))
     out.append(("pair-makespan+flowtime", prog(4, W2 + [new("ObjectiveMinimizeMakespan", "o1"), new("ObjectiveMinimizeFlowtime", "o2")])))
+    # the built-in objectives take no weight argument: it is assigned afterwards, and the weight at solve time counts
+    out.append(("pair-makespan+flowtime/assigned-weights-3:1", prog(4, W2 + [new("ObjectiveMinimizeMakespan", "o1"), new("ObjectiveMinimizeFlowtime", "o2"),
+                                                                            dsl.setattr_("o1", "weight", 3)])))
+    out.append(("pair-startlatest+priorities/assigned-weights-1:4", prog(3, [fixed("a", 1, priority=2), fixed("b", 1), worker("w"), req("a", "w"), req("b", "w"),
+                                                                             new("ObjectiveTasksStartEarliest", "o1"), new("ObjectiveMinimizeGreatestStartTime", "o2"),
+                                                                             dsl.setattr_("o2", "weight", 4)])))
+    # a bounded indicator next to an unbounded one, in both declaration orders: the bound of one objective says nothing
+    # about the weighted sum (here the sum passes through 0, the lower bound of i2, on its way down to -3)
+    bi1 = new("IndicatorFromMathExpression", "i1", name="i1", expression=E(["-", ["start", "a"], 3]))
+    bi2 = new("IndicatorFromMathExpression", "i2", name="i2", expression=E(["start", "b"]), bounds=(0, 4))
+    bo1 = new("ObjectiveMinimizeIndicator", "o1", target=R("i1"), weight=1)
+    bo2 = new("ObjectiveMinimizeIndicator", "o2", target=R("i2"), weight=1)
+    out.append(("pair-min/bounded-last", prog(4, [fixed("a", 1), fixed("b", 1), bi1, bi2, bo1, bo2])))
+    out.append(("pair-min/bounded-first", prog(4, [fixed("a", 1), fixed("b", 1), bi1, bi2, bo2, bo1])))
     if tier == "thorough":
         out.append(("makespan3", prog(4, [fixed("a", 1), fixed("b", 1), fixed("c", 2), worker("w"), req("a", "w"), req("b", "w"), req("c", "w"), new("ObjectiveMinimizeMakespan", "o")])))
         out.append(("flowtime-var", prog(4, [var("a", min_duration=1, max_duration=2), fixed("b", 1), worker("w"), req("a", "w"), req("b", "w"), new("ObjectiveMinimizeFlowtime", "o")])))
@@ -139,19 +153,24 @@ def nonlinear_objective(program):
     return False
 
 
-def run_loop(program, skw, choices, values, unknown_at=(), costs=None, default_cost=0.0):
-    """One execution of solve() under the controlled solver; candidates = one per objective value."""
+def run_loop(program, skw, choices, values, unknown_at=(), costs=None, default_cost=0.0, early=False):
+    """One execution of solve() under the controlled solver; candidates = one per objective value.
+    early=True: the solver object is created right after the problem, before anything is declared in it."""
     import processscheduler as ps
 
     ctl.install()
-    built = dsl.build(program)
     kw = dict(skw)
     kw.setdefault("max_time", 10)
+    if early:
+        kws = "".join(f", {k}={v!r}" for k, v in kw.items())
+        program = dict(program, decls=[{"k": "raw", "src": f"early_solver = ps.SchedulingSolver(problem=pb{kws})"}] + list(program["decls"]))
+    built = dsl.build(program)
     with boot.quiet(capture=True) as buf:
-        solver = ps.SchedulingSolver(problem=built.pb, **kw)
+        solver = built.ns["early_solver"] if early else ps.SchedulingSolver(problem=built.pb, **kw)
         solver.initialize()
         cands = None
-        if values is not None:
+        if values is not None and solver._objective is not None:
+            # (a solver that found no objective although the program declares one is judged on what it returns)
             objv = solver._objective._target
             cands = [(v, [objv == v]) for v in values]
         env = ctl.Env(choices=choices, candidates=cands, unknown_at=unknown_at, costs=costs, default_cost=default_cost)
@@ -200,7 +219,7 @@ def job(j):
             e = sigs.setdefault(k, [0, None, sig])
             e[0] += 1
             inst = {"program": program, "solver": {k2: v for k2, v in cfg.items() if not k2.startswith("_")}, "choices": [p["chosen"] for p in env.points],
-                    "env": {k2: cfg[k2] for k2 in ("_unknown_at", "_costs", "_default_cost") if k2 in cfg}, "values": values, "best": best,
+                    "env": {k2: cfg[k2] for k2 in ("_unknown_at", "_costs", "_default_cost", "_early") if k2 in cfg}, "values": values, "best": best,
                     "detail": detail, "expect": "optimise", "what": what}
             if e[1] is None or len(inst["choices"]) < len(e[1]["choices"]):
                 e[1] = inst
@@ -270,6 +289,12 @@ def job(j):
             cfg = {"_int": "extrapolation", "_default_cost": c}
             for choices, env in ctl.explore_choices(lambda ch: run_loop(program, {}, ch, values, default_cost=c), bound=1, max_runs=100):
                 judge(env, cfg, True)
+        # (3e) the solver object created before the problem is declared (it reads the problem when it is initialised)
+        cfg = {"_int": "none", "_early": True}
+        for choices, env in ctl.explore_choices(lambda ch: run_loop(program, {}, ch, values, early=True), bound=1, max_runs=60):
+            judge(env, cfg, False)
+        ocfg = {"optimizer": "optimize"} if n_obj == 1 else {"optimizer": "optimize", "optimize_priority": "weight"}
+        judge(run_loop(program, ocfg, None, None, early=True), dict(ocfg, _early=True), nonlinear_objective(program))
         # (4) z3.Optimize
         if n_obj == 1:
             env = run_loop(program, {"optimizer": "optimize"}, None, None)
@@ -311,7 +336,7 @@ def replay(inst):
     costs = {int(k): v for k, v in (envd.get("_costs") or {}).items()}
     steer = inst["choices"] or envd
     env = run_loop(program, inst["solver"], inst["choices"], values if (inst["choices"] or envd or inst["solver"].get("max_iter")) else None,
-                   unknown_at=envd.get("_unknown_at", ()), costs=costs, default_cost=envd.get("_default_cost", 0.0))
+                   unknown_at=envd.get("_unknown_at", ()), costs=costs, default_cost=envd.get("_default_cost", 0.0), early=bool(envd.get("_early")))
     out = {"returned": bool(env.sol), "value": getattr(env, "value", None), "best": best, "values": values, "error": env.err,
            "models_seen": [p["enabled"][p["chosen"]] for p in env.points if p["enabled"]], "leftover_scopes": env.leftover_scopes}
     what = inst["what"]
